@@ -271,32 +271,37 @@ def dispatch(R, ctx):
 
 
 def order(R, ctx):
+    from .. import interproc
     rid = "C03.order"
     lib = ctx.lib
-    R.rule(rid, "write_token_options emits leading trivia, then the token content, then trailing trivia (event order of the calls); "
-                "write_token delegates to it")
+    R.rule(rid, "write_token_options emits leading trivia, then the token content, then trailing trivia (source-order event sequence with "
+                "local helper functions expanded in place); write_token delegates to it")
     fn = lib.fn("generator::token_based::TokenBasedLuaGenerator::write_token_options")
-    path = fn["path"] if fn else None
     if not R.require(rid, "anchor:write_token_options", fn is not None, "", "not found"):
         return
-    a = ctx.an.fa(path)
-    seq = []
-    for c in thir.walk(thir.body_of(fn)):
-        if c.get("k") == "Call" and c.get("fname") in ("write_trivia", "push_str"):
+
+    def srcs(arg, fa):
+        # `read` only counts when it is Token::read (trivia have a read of their own)
+        return {y.get("fname") for y in fa.source_calls(arg) if y.get("fname") != "read" or "Token" in (callee_of(y) or y.get("fn") or "")}
+
+    def derive(arg, fa, tainted):
+        return "read" in srcs(arg, fa) or any(("#param", t) in fa.origins(arg) for t in tainted)
+
+    def classify(n, fa, tainted):
+        if n.get("k") != "Call":
+            return None
+        if n.get("fname") == "write_trivia":
             names = set()
-            for arg in c["args"][1:]:
-                for y in a.source_calls(arg):
-                    if y.get("fname") in ("iter_leading_trivia", "iter_trailing_trivia", "read"):
-                        names.add(y["fname"])
-            seq.append((c["fname"], names, c.get("ln")))
-    kinds = []
-    for fname, names, ln in seq:
-        if fname == "write_trivia" and "iter_leading_trivia" in names:
-            kinds.append("leading")
-        elif fname == "write_trivia" and "iter_trailing_trivia" in names:
-            kinds.append("trailing")
-        elif fname == "push_str" and "read" in names:
-            kinds.append("content")
+            for arg in n["args"][1:]:
+                names |= srcs(arg, fa)
+            if "iter_leading_trivia" in names:
+                return "leading"
+            if "iter_trailing_trivia" in names:
+                return "trailing"
+        if n.get("fname") == "push_str" and any(derive(arg, fa, tainted) for arg in n["args"][1:]):
+            return "content"
+        return None
+    kinds = [lab for lab, f, n in interproc.linear_events(ctx, fn, classify, derive)]
     R.ob(rid, "write_token_options|order", kinds == ["leading", "content", "trailing"], ctx.where(fn),
          "event order found: %s (expected leading, content, trailing)" % kinds)
 
